@@ -254,6 +254,11 @@ psRes_t psX509ParseCertData(psPool_t *pool,
 # else
     err = PS_FAILURE;
 # endif /* USE_PEM_DECODE */
+    if (err == PS_MEM_FAIL)
+    {
+        /* Not a statement about the input format */
+        return err;
+    }
     if (err < PS_SUCCESS)
     {
         /* PEM serialization failed or not supported. Try binary input. */
